@@ -116,6 +116,8 @@ impl RdfStore {
                 return false;
             }
         }
+        #[cfg(grafeo_verif)]
+        grafeo_common::verif::yield_point("rdf.insert.after_contains");
 
         // Insert into primary storage
         {
@@ -124,6 +126,8 @@ impl RdfStore {
                 return false;
             }
         }
+        #[cfg(grafeo_verif)]
+        grafeo_common::verif::yield_point("rdf.insert.after_primary");
 
         // Update indexes
         {
@@ -133,6 +137,8 @@ impl RdfStore {
                 .or_default()
                 .push(Arc::clone(&triple));
         }
+        #[cfg(grafeo_verif)]
+        grafeo_common::verif::yield_point("rdf.insert.after_subject");
 
         {
             let mut predicate_index = self.predicate_index.write();
@@ -141,6 +147,8 @@ impl RdfStore {
                 .or_default()
                 .push(Arc::clone(&triple));
         }
+        #[cfg(grafeo_verif)]
+        grafeo_common::verif::yield_point("rdf.insert.after_predicate");
 
         if self.config.index_objects {
             let mut object_index = self.object_index.write();
@@ -168,6 +176,8 @@ impl RdfStore {
         if !removed {
             return false;
         }
+        #[cfg(grafeo_verif)]
+        grafeo_common::verif::yield_point("rdf.remove.after_primary");
 
         // Update indexes
         {
@@ -179,6 +189,8 @@ impl RdfStore {
                 }
             }
         }
+        #[cfg(grafeo_verif)]
+        grafeo_common::verif::yield_point("rdf.remove.after_subject");
 
         {
             let mut predicate_index = self.predicate_index.write();
@@ -189,6 +201,8 @@ impl RdfStore {
                 }
             }
         }
+        #[cfg(grafeo_verif)]
+        grafeo_common::verif::yield_point("rdf.remove.after_predicate");
 
         if self.config.index_objects {
             let mut object_index = self.object_index.write();
